@@ -4,6 +4,7 @@ import (
 	"strconv"
 
 	"github.com/BondMachineHQ/BondMachine/pkg/procbuilder"
+	"github.com/BondMachineHQ/BondMachine/pkg/simbox"
 )
 
 // C09 (narrowed to state isolation): processors / simulations that share no
@@ -14,6 +15,8 @@ import (
 // kind 0: step-order independence of one VM with two unbonded processors.
 // kind 1: non-interference inside one VM: P0's state after T ticks does not depend on P1.
 // kind 2: non-interference between two VMs simulated in one process.
+// kind 3: two simulations of the SAME Bondmachine object with different per-opcode delay sets (what
+//         cmd/simfinetune does from several workers): each simulation obeys its own delays.
 
 const zzC09Ops = "add,addp,cpy,dec,divp,inc,j,multp,nop,rset"
 
@@ -34,9 +37,27 @@ func zzC09Machine(doms ...*procbuilder.Machine) *Bondmachine {
 	return bm
 }
 
+// zzDelays: one single-delay distribution per opcode of m, the delay a solver variable in 0..2
+func zzDelays(m *procbuilder.Machine, tag string) (*simbox.SimDelays, []int32) {
+	sd := simbox.NewSimDelays()
+	ds := make([]int32, len(m.Op))
+	for i, op := range m.Op {
+		d := zzNondetU8(tag)
+		zzAssume(d <= 2)
+		ds[i] = int32(d)
+		sd.OpcodeDelays[op.Op_get_name()] = simbox.DelayDistribution{int32(d): 1}
+	}
+	return sd, ds
+}
+
 func zzC09VM(bm *Bondmachine, regs [][]uint8) *VM {
+	return zzC09VMd(bm, regs, nil)
+}
+
+func zzC09VMd(bm *Bondmachine, regs [][]uint8, sd *simbox.SimDelays) *VM {
 	vm := new(VM)
 	vm.Bmach = bm
+	vm.SimDelayMap = sd
 	vm.Init()
 	vm.Launch_processors(nil)
 	for p := range vm.Processors {
@@ -125,6 +146,28 @@ func zzC09(kind int, nwords int, T int) {
 			mine.Step(nil)
 		}
 		zzAssert("simulation-independent-of-other-simulation", zzSameProc(alone.Processors[0], mine.Processors[0]))
+	case 3:
+		bm := zzC09Machine(d0)
+		sdOther, _ := zzDelays(d0, "delay-other")
+		sdMine, dMine := zzDelays(d0, "delay-mine")
+		other := zzC09VMd(bm, zzRegs("reg1", 1), sdOther)
+		mine := zzC09VMd(bm, zzRegs("reg0", 1), sdMine)
+		for t := 0; t < T; t++ {
+			other.Step(nil)
+			P := mine.Processors[0]
+			prePc, preDc := P.Pc, P.DelayCounter
+			id, _ := d0.Conproc.Decode_opcode(d0.Program.Slocs[prePc])
+			mine.Step(nil)
+			if preDc == 0 && P.Pc != prePc {
+				zzAssert("own-delay-applied", P.DelayCounter == dMine[id])
+				if P.DelayCounter > 0 {
+					zzReach("delayed")
+				}
+			}
+			if preDc > 0 {
+				zzAssert("delay-counts-down", P.DelayCounter == preDc-1 && P.Pc == prePc)
+			}
+		}
 	}
 	zzReach("end")
 }
